@@ -362,6 +362,8 @@ def gen_file(rng, natoms=None, ninstr=None, with_qpeaks=True, restraints=True, k
             ['REM', 'wR2', '=', '0.1143,', 'GooF', '=', 'S', '=', '1.044,', 'Restrained', 'GooF', '=', '1.046', 'for', 'all', 'data'],
             ['REM', 'Highest', 'difference', 'peak', '0.407,', 'deepest', 'hole', '-0.691,', '1-sigma', 'level', '0.073'],
             ['REM', '123', 'parameters', 'refined', 'using', '5', 'restraints'],
+            ['REM', 'DSR', 'PUT', 'TOLUENE', 'WITH', 'C1', 'C2', 'C3', 'ON', 'Q1', 'Q2', 'Q3', 'PART', '1', 'OCC', '-21'],
+            ['REM', 'DSR', 'REPLACE', 'THF', 'WITH', 'O1', 'C1', 'C2', 'ON', 'O1', 'C1', 'C2'],
             ['REM'], ['REM', 'SADI', 'C1', 'C2', '='], ['REM', 'C1B', '1', '0.31', '0.36', '0.33', '-21.0', '0.03'], ['REM', '2', '1', '0.5', '0.5', '0.5', '11.0', '0.05']]
     for _ in range(rng.choice([0, 0, 1, 2, 3])):
         add(rng.choice(REMS), 'rem')
